@@ -131,6 +131,15 @@ CHECKS = {
             "in 0..2^32-1.",
             "Trusted: ref.state.phys (banking table from B1.3.2). Event menus shrink with depth (stated in evidence).",
             "3 C10"),
+    "C03": ("product enumeration of generated block-transfer instances (register lists x bases x wrap-around addresses x "
+            "modes) compared with the reference model, plus two-instruction store;load programs with a differential oracle",
+            "For each of the 33 LDM/STM/PUSH/POP/SRS/RFE encoding rows: W x base register x register lists (all lists of the "
+            "16-bit forms; a 159-list structured family of the wide forms in quick, ALL 2^16 lists per row in thorough) x "
+            "base addresses incl. both wrap-around ends x modes x instruction sets; touched words, register order, final "
+            "base, user-bank forms, CPSR restore of the exception-return forms (CPSRWriteByInstr sweep over mode x masks x "
+            "SCR/NMFI) and the frame condition are compared with the model. 13 kinds of store;load pairs with the listed "
+            "registers clobbered in between must restore all listed registers and the base.",
+            "Trusted: armmc/ref/rows_block.py. UNKNOWN base values are don't-care.", "3 C03"),
 }
 NOT_YET = "check not built yet in this round (see DESIGN.md section 3 for the planned bounded-exhaustive formulation)"
 
